@@ -16,7 +16,7 @@
 //	   thorough: unquoted <= 3, quoted content <= 2, both declaration orders) together in one grammar.
 //
 // Violation keys: empty-id:<term|nonterm|produce>:<no-alnum|empty-quotes|other>,
-// invalid-id:<term|nonterm|produce:quoted|produce:unquoted>:<leading-digit|bad-char>, dup-id:<kind>+<kind>,
+// invalid-id:<term|nonterm|produce:quoted|produce:unquoted>:<leading-digit|bad-char|blank>, dup-id:<kind>+<kind>,
 // style:produce:<style>, panic:<where>:<site>.
 //
 //	D. explicit lexeme IDs (name (ID): /re/): a terminal with an explicit ID alone, next to a second one,
@@ -167,6 +167,8 @@ func idDefect(id string) string {
 	switch {
 	case id == "":
 		return "empty"
+	case id == "_":
+		return "blank" // Go's blank identifier: can be declared, never referenced
 	case validID.MatchString(id):
 		return ""
 	case isDigit(id[0]):
